@@ -25,13 +25,14 @@ Definition within (a o tol : Z) : bool := (Z.abs (a - o) <=? tol).
 
 Definition tcase_model_ok (t : tcase) : bool :=
   let s := run (t_cfg t) (conn_start (t_cfg t)) (t_evs t) in
-  N.eqb (phase_idx (ph s)) (if N.eqb (t_phase t) 4 then 2%N else t_phase t) &&
+  N.eqb (phase_idx (ph s)) (if N.eqb (t_phase t) 4 || N.eqb (t_phase t) 8 then 2%N else t_phase t) &&
   match closed s, t_closed t with
   | Some a, Some o => within a o (t_tol t)
   | None, None => true
   | _, _ => false
   end.
-(* (a slow-origin scenario ends in the idle wait after the reply: phase 4 -> 2) *)
+(* (a slow-origin scenario ends in the idle wait after the reply, a body that never comes in the
+   idle wait after the aborted exchange: phases 4 and 8 -> 2) *)
 
 (* the limit the property statement names for a stall in each phase *)
 Definition spec_limit (c : cfg) (p : N) : option Z :=
@@ -41,6 +42,12 @@ Definition spec_limit (c : cfg) (p : N) : option Z :=
   | 2%N => pos (if 0 <? c_idle c then c_idle c else c_read c)   (* idle-timeout *)
   | 3%N => pos (if 0 <? c_rhdr c then c_rhdr c else c_read c)   (* read-header-timeout *)
   | 5%N | 6%N => pos (c_mitm c)                           (* tls-handshake-timeout, MITM *)
+  | 8%N => (* request body never sent: the exchange is aborted at first byte + ReadTimeout with an error
+              response, the connection stays and is closed idle-timeout later (t_enter = first byte) *)
+           match pos (c_read c), pos (if 0 <? c_idle c then c_idle c else c_read c) with
+           | Some r, Some i => Some (r + i)
+           | _, _ => None
+           end
   | _ => None
   end.
 
